@@ -264,11 +264,45 @@ def run_e2e(ctx, nfiles):
     return len(cases)
 
 
+def run_multi_files(ctx):
+    """several test-data files for one rules file (a -t directory and the --dir layout): every combination of files whose
+    expectations are met / unmet; every output format must exit 7 iff some expectation is unmet, and list every file's cases"""
+    import itertools
+    jobs, meta = [], []
+    k = 0
+    for n_ in (2, 3):
+        for combo in itertools.product([True, False], repeat=n_):
+            d = os.path.join(ctx.wd, 'mf%d' % k); k += 1
+            files = {'pol/r.guard': 'rule t {\n  x == 1\n}\nrule u when y exists {\n  y == 2\n}\n'}
+            for i, met in enumerate(combo):
+                spec = [{'name': 'case%d' % i, 'input': {'x': 1}, 'expectations': {'rules': {'t': 'PASS' if met else 'FAIL', 'u': 'SKIP'}}}]
+                files['pol/tests/r_%d_tests.yaml' % i] = json.dumps(spec)
+            e2e.write_files(d, files)
+            for fmt in ('plain', 'json', 'yaml', 'junit'):
+                o = [] if fmt == 'plain' else ['-o', fmt]
+                jobs.append({'args': ['test', '-a', '-r', 'pol/r.guard', '-t', 'pol/tests'] + o, 'cwd': d}); meta.append((combo, 'tdir', fmt))
+                jobs.append({'args': ['test', '-a', '-d', 'pol'] + o, 'cwd': d}); meta.append((combo, 'dir', fmt))
+    n = 0
+    for (combo, layout, fmt), (code, so, se) in zip(meta, e2e.run_many(jobs)):
+        n += 1
+        want = 0 if all(combo) else 7
+        text = so.decode('utf-8', 'replace')
+        info = {'class': 'test-multi-file', 'met': list(combo), 'layout': layout, 'format': fmt, 'stdout': text[:600], 'stderr': se[-300:].decode('utf-8', 'replace')}
+        if code != want:
+            ctx.failing('test (%s, %s) over %d test files with expectations met=%s exits %s, expected %d' % (layout, fmt, len(combo), list(combo), code, want), info, found=True)
+        missing = [i for i in range(len(combo)) if ('case%d' % i) not in text]
+        if missing and fmt in ('json', 'yaml', 'junit'):
+            ctx.failing('test (%s, %s): the cases of test file(s) %s are not reported' % (layout, fmt, missing), info, found=True)
+    ctx.coverage['multi_test_file_runs'] = n
+    ctx.coverage['evaluations'] += n
+    return n
+
+
 def run(ctx):
     ctx.build(cli=True)
     pr = ctx.proofs('C16')
     thorough = ctx.tier == 'thorough'
-    n1 = exhaustive_gsr(ctx, 6 if thorough else 4)
+    n1 = exhaustive_gsr(ctx, 6 if thorough else 4) + run_multi_files(ctx)
     n2 = run_e2e(ctx, 300 if thorough else 60)
     ctx.coverage['distinct_nontrivial'] = n1 + n2
     ctx.coverage['rule'] = ('get_status_result: every expected status x every status list up to length %d (all distinct); end-to-end: generated rules files '
